@@ -924,13 +924,13 @@ def pipeline_case(draw):
 
 def campaigns(tier):
     cs = [
-        Campaign("pairs", body_pair, pair_strategy(), quick=16000, thorough=400000,
+        Campaign("pairs", body_pair, pair_strategy(), quick=16000, thorough=300000,
                  describe="is_type_compatible(A,B) == ref(A,B) on independent and related pairs, depth <= 3"),
-        Campaign("laws", body_laws, laws_case(), quick=5000, thorough=100000,
+        Campaign("laws", body_laws, laws_case(), quick=5000, thorough=80000,
                  describe="reflexivity, union introduction/elimination, covariance, Annotated transparency (implementation only)"),
         Campaign("depth1", body_pair, enumerate=enum_depth1, quick=0, thorough=0, exhaustive=True,
                  describe="all ordered pairs of the depth-1 grammar over 8 leaves (3-tuples over int/bool/str)"),
-        Campaign("pipelines", body_pipeline, pipeline_case(), quick=5000, thorough=100000,
+        Campaign("pipelines", body_pipeline, pipeline_case(), quick=5000, thorough=80000,
                  describe="2-3 function pipelines: direct / element-wise / reductions; TypeError iff an incompatible edge"),
     ]  # fmt: skip
     if tier == "thorough":
